@@ -81,14 +81,23 @@ impl From<&CfgError> for SeverityLevel {
     }
 }
 
+/// The label of the set that is written first (the name decides between
+/// labels of different files at the same position): the same one on every
+/// run, and the same instruction whatever the labels are called.
+fn first_used(labels: &HashSet<LabelStringToken>) -> &LabelStringToken {
+    labels
+        .iter()
+        .min_by(|a, b| a.range().cmp(&b.range()).then_with(|| a.cmp(b)))
+        .unwrap()
+}
+
 impl DiagnosticLocation for CfgError {
     fn file(&self) -> uuid::Uuid {
         match self {
             CfgError::MultipleLabelsForReturn(node, _) | CfgError::NoLabelForReturn(node) => {
                 node.file()
             }
-            // the first name of the (sorted) list in the title: the same one on every run
-            CfgError::LabelsNotDefined(labels) => labels.iter().min().unwrap().file(),
+            CfgError::LabelsNotDefined(labels) => first_used(labels).file(),
             CfgError::DuplicateLabel(label) => label.file(),
             CfgError::UnexpectedError | CfgError::AssertionError => uuid::Uuid::nil(),
         }
@@ -99,7 +108,7 @@ impl DiagnosticLocation for CfgError {
             CfgError::MultipleLabelsForReturn(node, _) | CfgError::NoLabelForReturn(node) => {
                 node.range()
             }
-            CfgError::LabelsNotDefined(labels) => labels.iter().min().unwrap().range(),
+            CfgError::LabelsNotDefined(labels) => first_used(labels).range(),
             CfgError::DuplicateLabel(label) => label.range(),
             CfgError::UnexpectedError | CfgError::AssertionError => crate::parser::Range::default(),
         }
@@ -110,7 +119,7 @@ impl DiagnosticLocation for CfgError {
             CfgError::MultipleLabelsForReturn(node, _) | CfgError::NoLabelForReturn(node) => {
                 node.raw_text()
             }
-            CfgError::LabelsNotDefined(labels) => labels.iter().min().unwrap().raw_text(),
+            CfgError::LabelsNotDefined(labels) => first_used(labels).raw_text(),
             CfgError::DuplicateLabel(label) => label.raw_text(),
             CfgError::UnexpectedError | CfgError::AssertionError => String::new(),
         }
